@@ -686,7 +686,7 @@ enum Job {
 fn confs_for(tier: Tier) -> Vec<(Kind, f64)> {
     match tier {
         Tier::Quick => vec![(Kind::Two, 0.95), (Kind::Two, 0.001), (Kind::Two, 0.9999), (Kind::Upper, 0.9999), (Kind::Upper, 0.25), (Kind::Upper, 0.001), (Kind::Lower, 0.5), (Kind::Lower, 0.96875), (Kind::Lower, 0.001)],
-        Tier::Thorough => vcheck::confs(Tier::Quick),
+        Tier::Thorough => vcheck::confs(Tier::Thorough),
     }
 }
 
